@@ -8,6 +8,17 @@ HERE = os.path.dirname(os.path.abspath(__file__))
 TECH = 'symbolic execution of the real numdifftools functions on z3 terms (own tracing executor over numpy object arrays); negated property decided by z3'
 
 CHECKS = {
+    'C01': dict(
+        text='RESTRICTED sub-claim, bounded solver verdict: through the real Derivative pipeline (difference function dispatch, '
+             'pinv rule, Richardson) every derivative-estimate row equals the independently computed n-th derivative for ALL '
+             'polynomials of degree n+method_order-1 with coefficients in [-1,1] (real, and complex for the real-step methods), '
+             'within the backward-error bound of the float rule; n=0 returns the term f(x). Transcendental f, truncation '
+             'behaviour and rounding of the accuracy envelope are outside the claim and are not reported as verified.',
+        note='Trusted: z3 (QF_LRA); symbolic numpy layer and the convolve1d reference (both validated against the untouched '
+             'library on every run); tolerance tau_i = 2000*eps*|w|_1*sum_k F_k h^(k-n) + point-rounding term; rows with '
+             'tau >= 1e-3*scale are excluded and counted. Counterexamples are replayed on the final value of the real Derivative.',
+        technique=TECH + ' (QF_LRA)',
+        design='3/C01'),
     'C05': dict(
         text='Bounded solver verdict over all x, all positive base steps and every value of the nominal-step log(): every '
              'argument the five derivative classes pass to the user function is admissible (one-sided / mirrored / exact real '
